@@ -69,7 +69,12 @@ Inductive sty :=
 | SList (opt:bool) (e:sty)
 | SMap (opt:bool) (k v:sty)
 | SRef (opt:bool) (r:sref)
-| STuple (opt:bool) (mapkey:bool) (fields:list (name*sty)).   (* mapkey: the type carries a json_map_key attribute *)
+| STuple (opt:bool) (mapkey:bool) (fields:list (name*sty))    (* mapkey: the type carries a json_map_key attribute *)
+| SRel (opt:bool) (fields:list (name*sty))      (* !table (Type_Relation_): AttrDefs; an attribute that is a TypeRef is
+                                                   projected as STabRef, every other attribute as itself *)
+| STabRef (opt:bool) (app ty:name)              (* a TypeRef attribute of a relation, as convertTableRef reads it:
+                                                   app = Context.Appname.Part[0], ty = Ref.Path[0] *)
+| SUnion (opt:bool) (alts:list sty).            (* !union (Type_OneOf_): MapType has no case for it *)
 
 Record sparam := { sp_name : name; sp_body : bool; sp_ty : sty }.     (* sp_body = HasPattern(attrs, "body") *)
 Record qparam := { q_name : name; q_ty : sty }.
@@ -116,6 +121,11 @@ Fixpoint map_type (o:oracle) (t:sty) : wtype :=
   | STuple op mk fields =>
       WT (if mk then "map" else "tuple") op nor [] []
          (mset_all (range o (map (fun kv : name*sty => let (k,v) := kv in (k, map_type o v)) fields)) [])
+  | SRel op fields =>
+      WT "relation" op nor [] []
+         (mset_all (range o (map (fun kv : name*sty => let (k,v) := kv in (k, map_type o v)) fields)) [])
+  | STabRef _ a t => WT "ref" false (a, t) [] [] []   (* &Type{Type: "ref", Reference: ..}: the attribute's `?` is not copied *)
+  | SUnion op _ => WT "" op nor [] [] []          (* simpleType keeps its zero value *)
   end%string.
 
 Record wparam := { wp_in : string; wp_ty : wtype }.
